@@ -127,3 +127,25 @@ Proof.
     rewrite app_length in E. pose proof (RedisProofs.dec_nonempty q). destruct (dec q); [contradiction|]. cbn in E. lia.
   - split; [vm_compute; reflexivity|]. split; [vm_compute; lia|]. vm_compute. repeat split; reflexivity.
 Qed.
+
+(* ---------- on the interleaving semantics itself (the semantics the scheduler follows) ---------- *)
+From GX.Proofs Require InterleaveSeq.
+(* an update that is one atomic script (Count-Min Update, HyperLogLog Update): under ANY schedule two
+   concurrent updates end as the two updates one after the other, in one of the two orders *)
+Theorem C16_single_script_updates_serialise : forall sched fuel l1 f1 r1 l2 f2 r2 s, (2 <= fuel)%nat ->
+  interleave sched fuel (InterleaveSeq.one_step l1 f1 r1) (InterleaveSeq.one_step l2 f2 r2) s = (f2 (f1 s), Some r1, Some r2) \/
+  interleave sched fuel (InterleaveSeq.one_step l1 f1 r1) (InterleaveSeq.one_step l2 f2 r2) s = (f1 (f2 s), Some r1, Some r2).
+Proof. exact InterleaveSeq.one_step_interleave. Qed.
+Print Assumptions C16_single_script_updates_serialise.
+Theorem C16_cms_and_hll_updates_are_single_scripts : forall cpos hic hc hh x c,
+  cms_update_prog cpos hc x c = InterleaveSeq.one_step L_EVAL (fun s => snd (rcms_update cpos s hc x c)) 1 /\
+  hll_update_prog hic hh x = InterleaveSeq.one_step L_EVAL (fun s => snd (rhll_update hic s hh x)) 1.
+Proof. intros. split; reflexivity. Qed.
+(* the Bloom insert is one SETBIT per probe position, each its own step: under ANY schedule of two
+   concurrent inserts both return, and afterwards exactly the probe positions of both inserts have
+   been added to the bits that were set (what the two inserts one after another give) *)
+Theorem C16_bloom_interleaved_inserts : forall key j sched fuel psa psb s, (length psa + length psb < fuel)%nat ->
+  exists s', interleave sched fuel (bloom_insert_prog key psa) (bloom_insert_prog key psb) s = (s', Some 1, Some 1) /\
+             r_getbit s' key j = InterleaveSeq.has j psa || InterleaveSeq.has j psb || r_getbit s key j.
+Proof. exact InterleaveSeq.bloom_interleave. Qed.
+Print Assumptions C16_bloom_interleaved_inserts.
